@@ -502,7 +502,7 @@ def evalBuiltin : Nat → String → List Node → M Obj
       match val with
       | .error m => do
         -- an error turned into a value must not make the enclosing call cacheable (it may be due to the bindings of the moment)
-        triggerNoCache (← get).cur
+        triggerNoCache (← curEnv)
         pure (.map false [(errKey, .bool true), (valueKey, .str (toBytes m))])
       | _ => pure (.map false [(errKey, .bool false), (valueKey, val)])
     | "FIRST" => do objFirst (← valueOf val)
